@@ -163,6 +163,7 @@ type FnCtx struct {
 	ghostNames  map[string]Term // names bound to results of calls made by the function under verification
 	ghostKeys   map[string]string // ghost name -> call key (for called(name))
 	inputSyms   []string
+	spawned     []map[string]bool // write sets of goroutines started without a contract (havoc'd at spawn and at every Wait)
 }
 
 func newFnCtx(e *Engine, fn *ssa.Function, spec *FuncSpec) *FnCtx {
@@ -1058,6 +1059,14 @@ func (fc *FnCtx) execBody(fr *Frame, in *State) (*State, []Val) {
 	for i, h := range headers {
 		loops[h].ord = i
 		fr.loopOrd[h] = i
+	}
+	if fr.spec != nil {
+		for ord := range fr.spec.Loops {
+			if ord >= len(headers) {
+				// a loop contract that binds to nothing would silently verify nothing
+				panic(bindError{fmt.Sprintf("%s:%d: contract of %s names loop %d but the function has %d loop(s)", fr.spec.File, fr.spec.Line, fr.spec.Target, ord, len(headers))})
+			}
+		}
 	}
 	order := rpo(fn, isBack)
 	outStates := map[*ssa.BasicBlock]*State{}
